@@ -112,6 +112,27 @@ func TestC15FindLookups(t *testing.T) {
 			}
 			info.FeatureList = append(info.FeatureList, f)
 		}
+		// two features with different tags that share their lookups (locl
+		// re-used by ss01, liga by dlig): in half of the cases, and then most
+		// language systems list both, one directly after the other
+		shareA, shareB := -1, -1
+		if nf >= 2 && nLookups > 0 && rapid.Bool().Draw(t, "sharedLookups") {
+			shareA = rapid.IntRange(0, nf-1).Draw(t, "shareA")
+			shareB = (shareA + rapid.IntRange(1, nf-1).Draw(t, "shareB")) % nf
+			fa, fb := info.FeatureList[shareA], info.FeatureList[shareB]
+			if len(fa.Lookups) == 0 {
+				fa.Lookups = append(fa.Lookups, gtab.LookupIndex(rapid.IntRange(0, nLookups-1).Draw(t, "sharedLookup")))
+			}
+			fb.Lookups = append(append([]gtab.LookupIndex{}, fa.Lookups...), fb.Lookups...)
+			if fa.Tag == fb.Tag {
+				for _, tag := range featurePool {
+					if tag != fa.Tag {
+						fb.Tag = tag
+						break
+					}
+				}
+			}
+		}
 		nls := rapid.OneOf(rapid.IntRange(1, 4), rapid.IntRange(1, 20)).Draw(t, "nLangSys")
 		var keys []language.Tag
 		// families of tags that agree in language, script and region and differ
@@ -143,6 +164,11 @@ func TestC15FindLookups(t *testing.T) {
 			k := rapid.IntRange(0, 6).Draw(t, "nOpt")
 			for j := 0; j < k; j++ {
 				ff.Optional = append(ff.Optional, gtab.FeatureIndex(rapid.OneOf(rapid.IntRange(0, 9), rapid.SampledFrom([]int{8, 9, 1000})).Draw(t, "opt")))
+			}
+			if shareA >= 0 && rapid.IntRange(0, 3).Draw(t, "listsShared") > 0 {
+				at := rapid.IntRange(0, len(ff.Optional)).Draw(t, "sharedAt")
+				pair := []gtab.FeatureIndex{gtab.FeatureIndex(shareA), gtab.FeatureIndex(shareB)}
+				ff.Optional = append(ff.Optional[:at:at], append(pair, ff.Optional[at:]...)...)
 			}
 			info.ScriptList[e.Tag] = ff
 			keys = append(keys, e.Tag)
